@@ -41,8 +41,10 @@ def run_property(pid: str, tier: str, root: str | None = None, project=None):
     mod = importlib.import_module(f"verif.props.{pid.lower()}")
     ctx = Ctx(project, tier)
     results: list[RuleResult] = mod.run(ctx)
-    for r in results:
-        r.check_floor()
+    # a VIOLATION verdict wins: floors (anchor vanished) are only fatal when no rule reports a construct
+    if not any(not f.informational for r in results for f in r.findings):
+        for r in results:
+            r.check_floor()
     return project, mod, results
 
 
